@@ -102,8 +102,15 @@ def describe(item, ops, what):
         sig = {"kind": o["kind"], "k": [g["kh"], g["kw"]], "s": [g["sy"], g["sx"]], "pad": [g["pt"], g["pl"], g["pb"], g["pr"]],
                "blk": [g["bh"], g["bw"], g["bd"]], "ofm": [g["oh"], g["ow"], g["od"]], "bd": what[3],
                "prev_blk": [pg.get("bh"), pg.get("bw"), pg.get("bd")], "prev_ofm": [pg.get("oh"), pg.get("ow"), pg.get("od")]}
-        cls = "BLOCKDEP too large for a consumer with pad_right > pad_top, stride_y >= 2" \
-            if (name == "BlockDepSafe" and g["pr"] > g["pt"] and g["sy"] >= 2) else "other"
+        R = o["regs"]
+        tiled = (R.get("NPU_SET_IFM_HEIGHT0_M1", 0) + 1 < g["ih"]) or (R.get("NPU_SET_IFM_WIDTH0_M1", 0) + 1 < g["iw"])
+        if name == "BlockDepSafe" and g["pr"] > g["pt"] and g["sy"] >= 2:
+            cls = "BLOCKDEP too large for a consumer with pad_right > pad_top, stride_y >= 2"
+        elif (name == "BlockDepSafe" and item["src"] == "compiled" and o["kind"] == "dw" and [g["kh"], g["kw"]] == [2, 2]
+              and [g["pt"], g["pl"], g["pb"], g["pr"]] == [0, 0, 0, 0] and tiled):
+            cls = "tile-padded 2x2 depthwise (half-pixel resize) reads a replicated row/column its IFM shape omits"
+        else:
+            cls = "other"
         return "%s|%s|%s" % (name, cls, json.dumps(sig, sort_keys=True)), sig
     return "%s|op%d|%s" % (name, opi, item["src"]), {"op": opi}
 
